@@ -62,5 +62,5 @@ Example C18_nonvacuous :
   wf_init 100 nv_cfg nv_ds /\
   let '(s, _, st) := run_future 80 nv_cfg nv_ds [0;1;2;0;1;2;0;1;2;0;1;2;0;1;2;0;1;2;0;1;2;0;1;2;0;1;2;0;1;2;0;1;2;0;1;2;0;0;0;0;0;0;0;0;0;0] in
   st = SDone /\ fcount (sh s) = 1 /\ freed (sh s) = 1 /\ refc (sh s) = 0 /\
-  map (fun th => rev (res th)) (threads s) = [[(r_func, 1)]; [(r_get, 7)]; [(r_wait, 1); (r_dealloc, 1)]].
+  map (fun th => rev (res th)) (threads s) = [[(r_func, 1)]; [(r_get, 7); (r_dealloc, 1)]; [(r_wait, 1)]].
 Proof. exact nonvacuous_c18. Qed.
